@@ -149,7 +149,11 @@ def rule_id_cache(ctx):
         if isinstance(e, ast.Subscript) and isinstance(e.value, ast.Attribute) and e.value.attr == "terms":
             return "yes"
         if isinstance(e, ast.Subscript) and isinstance(e.value, ast.Name):
-            return retained(c, f, e.value, depth + 1) if False else "yes" if e.value.id in ("cache",) else retained(c, f, e.value, depth + 1)
+            # an entry of one of the class's own cache dicts (a local bound to self._op_cache[...]) is retained by it
+            cdefs = [a.value for a in ast.walk(f.node) if isinstance(a, ast.Assign) and any(isinstance(t, ast.Name) and t.id == e.value.id for t in a.targets)]
+            if cdefs and all(isinstance(d, ast.Subscript) and isinstance(d.value, ast.Attribute) and isinstance(d.value.value, ast.Name) and d.value.value.id == "self" for d in cdefs):
+                return "yes"
+            return retained(c, f, e.value, depth + 1)
         if isinstance(e, ast.Name):
             if e.id in f.params:
                 return "yes"  # the caller's object (checked at the call sites of f inside the class)
@@ -203,7 +207,7 @@ def rule_id_cache(ctx):
                                     f"`{src_of(n)[:60]}` keys the cache `{n.func.attr}` by id() of an object that nothing retains ({verdict[4:]}): once it is freed its "
                                     "address is reused and a later, different object is served the stale entry",
                                     where=f"{f.module.relpath}:{n.lineno}", operand=f"{n.func.attr}:temporary"))
-    r.floor(nkeys, 2, "id()-keyed cache consultations outside __init__")
+    r.floor(nkeys, 1, "id()-keyed cache consultations outside __init__")
     return r
 
 
